@@ -12,11 +12,13 @@ pub mod c12;
 pub mod c13;
 pub mod c14;
 pub mod c16;
+pub mod c18;
+pub mod c19;
 pub mod fmtwork;
 pub mod c08_lang;
 
 pub fn all() -> Vec<PropertyDef> {
-    vec![c01::def(), c02::def(), c03::def(), c05::def(), c08::def(), c10::def(), c11::def(), c12::def(), c13::def(), c14::def(), c16::def()]
+    vec![c01::def(), c02::def(), c03::def(), c05::def(), c08::def(), c10::def(), c11::def(), c12::def(), c13::def(), c14::def(), c16::def(), c18::def(), c19::def()]
 }
 
 pub fn lookup(id: &str) -> Option<PropertyDef> {
